@@ -327,6 +327,19 @@ impl ASN1Type {
         }
     }
 
+    /// Does `self`, at any depth, refer to the type `name`?
+    fn refers_to(&self, name: &str) -> bool {
+        match self {
+            ASN1Type::ElsewhereDeclaredType(e) => e.identifier == name,
+            ASN1Type::Choice(c) => c.options.iter().any(|o| o.ty.refers_to(name)),
+            ASN1Type::Set(s) | ASN1Type::Sequence(s) => {
+                s.members.iter().any(|m| m.ty.refers_to(name))
+            }
+            ASN1Type::SequenceOf(so) | ASN1Type::SetOf(so) => so.element_type.refers_to(name),
+            _ => false,
+        }
+    }
+
     pub fn contains_components_of_notation(&self) -> bool {
         match self {
             ASN1Type::Choice(c) => c
@@ -479,6 +492,14 @@ impl ASN1Type {
                 parameterization: Some(Parameterization { parameters }),
                 ..
             })) => {
+                if ty.refers_to(identifier) {
+                    // `P {T} ::= SEQUENCE { .., next P {T} OPTIONAL }`: instantiating the template
+                    // would instantiate it again, without end
+                    return Err(grammar_error!(
+                        LinkerError,
+                        "Recursive parameterized type {identifier} is not supported"
+                    ));
+                }
                 let mut impl_template = ty.clone();
                 let mut impl_tlds = tlds.clone();
                 let mut table_constraint_replacements = BTreeMap::new();
